@@ -183,28 +183,40 @@ where T: Decodable + Encodable + Default + Send + Sync {
     ctx.imp.push(out);
 }
 
-/// decoder entry points that have no Lean model: the C15 oracles (no panic, no out-of-proportion
-/// allocation) of `real_dec` still apply; nothing is sent to the model
-fn feed_real_only<T>(rep: &mut Report, ty: &str, bytes: &[u8], kind: &str)
+/// the secret codec: the real re-encoding writes tags and list items in hash order, so the model and the
+/// implementation are compared on an order-insensitive summary of the re-encoding (length, sum and sum of
+/// squares of the bytes), the verdict and the number of unread bytes; the C15 oracles of `real_dec` apply.
+/// A reply `extern` of the model (the verdict depends on an external parser) is not compared.
+fn feed_real_only<T>(ctx: &mut Ctx, rep: &mut Report, ty: &str, bytes: &[u8], kind: &str)
 where T: Decodable + Encodable + Default + Send + Sync {
     let op = format!("codec dec {} {}", ty, if bytes.is_empty() { "-".to_string() } else { hex::encode(bytes) });
     let out = real_dec::<T>(ty, bytes, rep, &op);
     rep.count(&format!("{}:{}:{}", ty, kind, out.split(' ').next().unwrap()));
     rep.case(&format!("{ty}:{kind}:{}", hex::encode(&sha256(bytes)[..6])), kind != "random");
+    let imp = if let Some(r) = out.strip_prefix("ok ") {
+        let mut it = r.split(' ');
+        let e = hex::decode(it.next().unwrap_or("")).unwrap_or_default();
+        let rest = it.next().unwrap_or("");
+        let s1: u64 = e.iter().map(|x| *x as u64).sum();
+        let s2: u64 = e.iter().map(|x| (*x as u64) * (*x as u64)).sum();
+        format!("ok len={} s1={} s2={} {}", e.len(), s1, s2, rest)
+    } else { out };
+    ctx.ops.push(op);
+    ctx.imp.push(imp);
 }
 
-fn exercise_real_only<T>(rep: &mut Report, rng: &mut Rng, ty: &str, enc: &[u8], thorough: bool)
+fn exercise_real_only<T>(ctx: &mut Ctx, rep: &mut Report, rng: &mut Rng, ty: &str, enc: &[u8], thorough: bool)
 where T: Decodable + Encodable + Default + Send + Sync {
-    feed_real_only::<T>(rep, ty, enc, "valid");
+    feed_real_only::<T>(ctx, rep, ty, enc, "valid");
     let step = if enc.len() > 96 && !thorough { enc.len() / 48 } else { 1 };
     let mut i = 0;
-    while i < enc.len() { feed_real_only::<T>(rep, ty, &enc[..i], "truncated"); i += step.max(1); }
+    while i < enc.len() { feed_real_only::<T>(ctx, rep, ty, &enc[..i], "truncated"); i += step.max(1); }
     for _ in 0..(if thorough { 24 } else { 8 }) {
         if enc.is_empty() { break; }
         let mut m = enc.to_vec();
         let p = rng.below(m.len() as u64) as usize;
         m[p] ^= 1 << rng.below(8);
-        feed_real_only::<T>(rep, ty, &m, "bitflip");
+        feed_real_only::<T>(ctx, rep, ty, &m, "bitflip");
     }
     for _ in 0..(if thorough { 16 } else { 6 }) {
         if enc.len() < 4 { break; }
@@ -212,12 +224,12 @@ where T: Decodable + Encodable + Default + Send + Sync {
         let p = rng.below((m.len() - 3) as u64) as usize;
         let val: u32 = *rng.pick(&[0xffff_ffffu32, 0x0100_0001, 0x0100_0000, 0x00ff_ffff, 0x8000_0000, 0, 1]);
         m[p..p + 4].copy_from_slice(&val.to_le_bytes());
-        feed_real_only::<T>(rep, ty, &m, "length-edit");
+        feed_real_only::<T>(ctx, rep, ty, &m, "length-edit");
     }
     if enc.len() > 8 {
         let a = rng.below(enc.len() as u64) as usize; let b = rng.below(enc.len() as u64) as usize;
         let mut m = enc[..a].to_vec(); m.extend_from_slice(&enc[b..]);
-        feed_real_only::<T>(rep, ty, &m, "splice");
+        feed_real_only::<T>(ctx, rep, ty, &m, "splice");
     }
 }
 
@@ -275,6 +287,7 @@ fn flush(ctx: &mut Ctx, rep: &mut Report) {
     for (i, op) in ctx.ops.iter().enumerate() {
         let m = model.get(i).cloned().unwrap_or_default();
         if m == "unmodelled" { rep.count("unmodelled"); continue; }
+        if m == "extern" { rep.count("model-verdict-depends-on-external-parser"); continue; }
         // the model also reports its allocation bound; compare verdict + canonical bytes only
         let m_cmp = m.split(" alloc=").next().unwrap_or("").to_string();
         if m_cmp != ctx.imp[i] {
@@ -390,9 +403,9 @@ pub fn run(cli: &Cli) {
             match back.1 { Ok(s2) if canon(&s2) == canon(&secret) => {}, Ok(s2) => rep.spec_fail(&format!("roundtrip-differs:Secret:{kname}"), json!({"bytes": hex::encode(&e_secret), "before": canon(&secret).chars().take(600).collect::<String>(), "after": canon(&s2).chars().take(600).collect::<String>()}), "decode(encode v) != v"), Err(e) => rep.spec_fail(&format!("roundtrip-error:Secret:{kname}"), json!({"bytes": hex::encode(&e_secret)}), &e.to_string()) }
             match back.2 { Ok(r2) if canon_row(&r2) == canon_row(&row) => {}, Ok(_) => rep.spec_fail(&format!("roundtrip-differs:SecretRow:{kname}"), json!({"bytes": hex::encode(&e_row)}), "decode(encode v) != v"), Err(e) => rep.spec_fail(&format!("roundtrip-error:SecretRow:{kname}"), json!({"bytes": hex::encode(&e_row)}), &e.to_string()) }
             rep.count(&format!("secret-kind:{kname}"));
-            exercise_real_only::<SecretMeta>(&mut rep, &mut rng, "SecretMeta", &e_meta, thorough);
-            exercise_real_only::<Secret>(&mut rep, &mut rng, "Secret", &e_secret, thorough);
-            exercise_real_only::<SecretRow>(&mut rep, &mut rng, "SecretRow", &e_row, thorough);
+            exercise_real_only::<SecretMeta>(&mut ctx, &mut rep, &mut rng, "SecretMeta", &e_meta, thorough);
+            exercise_real_only::<Secret>(&mut ctx, &mut rep, &mut rng, "Secret", &e_secret, thorough);
+            exercise_real_only::<SecretRow>(&mut ctx, &mut rep, &mut rng, "SecretRow", &e_row, thorough);
         }
         // vault header and contents
         {
@@ -447,6 +460,25 @@ pub fn run(cli: &Cli) {
         let b = rand_bytes(&mut rng, l);
         for ty in TYPES { dispatch(&mut ctx, &mut rep, ty, &b, "random"); }
         if ctx.ops.len() > 30_000 { flush(&mut ctx, &mut rep); }
+    }
+    // directed edge cases for the secret kinds whose payload goes through an external parser (vCard, PEM, TOTP JSON,
+    // URL / JSON, age identity): empty and minimal payloads that a mutation stream rarely produces
+    {
+        let ud: Vec<u8> = vec![0, 0, 0, 0, 0, 0];
+        let st = |s: &str| { let mut v = (s.len() as u32).to_le_bytes().to_vec(); v.extend_from_slice(s.as_bytes()); v };
+        let payloads = ["", " ", "\r\n", "BEGIN:VCARD", "BEGIN:VCARD\r\nEND:VCARD\r\n", "BEGIN:VCARD\r\nVERSION:4.0\r\nEND:VCARD\r\n", "-----BEGIN X-----", "-----BEGIN X-----\n-----END X-----\n", "[]", "{}", "null", "\"\"", "AGE-SECRET-KEY-1", "http://", "[\"http://\"]"];
+        for kind in [1u8, 5, 9, 10, 15] {
+            for p in payloads.iter() {
+                let mut b = vec![kind];
+                match kind {
+                    1 => { b.extend(st("a")); b.extend(st("b")); b.push(1); b.extend(st(p)); }
+                    15 => { b.push(1); b.extend(st(p)); }
+                    _ => b.extend(st(p)),
+                }
+                b.extend_from_slice(&ud);
+                feed_real_only::<sos_vault::secret::Secret>(&mut ctx, &mut rep, "Secret", &b, "directed-external-payload");
+            }
+        }
     }
     // nesting depth: custom fields nest (a field is a SecretRow whose secret has user data with fields ...); the decoder
     // recurses once per level.  Decoded in a child process because a stack overflow aborts the process.
